@@ -3,8 +3,9 @@ KEYS_MODEL = ["Base", "Time", "Escape", "SchemaDefs", "ConcDefs", "Generated", "
 
 PROPS = {
     "C19": dict(
-        model_files=KEYS_MODEL,
+        model_files=KEYS_MODEL + ["GenPrelude", "GenFuncs", "GenPreludeMeta", "GenMeta", "P_GenMeta"],
         trusted_base=[KERNEL, GEN, HARNESS,
+                      "gen/unit_Meta.go: binding table of the translated Metadata / MetadataWithSLO (receiver = md_config, types.EntityDescriptor / SPSSODescriptor / KeyDescriptor / EncryptionMethod / IndexedEndpoint / Endpoint and goxmldsig's KeyInfo = the records of Metadata.v / GenPreludeMeta.v, int64 and time.Duration = Z with wrap64, Time.Add = time_add, base64 = Escape.base64_encode); a nil slice and an empty one are one value in the model, the answer of `== nil` on an empty slice is universally quantified",
                       "hand-written models Keys.v (saml.go key getters, SigningContext key choice and cache, decode_response.go getDecryptCert, the pre-RSA checks of DecryptSymmetricKey, goxmldsig TLSCertKeyStore / signDigest / getCerts) and Metadata.v (Metadata, MetadataWithSLO, time.Duration wrap, Time.Add) tied to /repo by the correspondence run",
                       "Generated.v: advertised_methods_Metadata / advertised_methods_MetadataWithSLO / decrypt_bytes_cases and the constants c_BindingHttpPost, c_SAMLProtocolNamespace re-extracted from the source on every run",
                       "Escape.v model of base64.StdEncoding (proved inverse of the decoder in EscapeProofs.v, compared with Go on every certificate)",
